@@ -63,3 +63,11 @@ pub fn utf8_ok(b: &[u8]) -> bool {
 fn cont(c: u8) -> bool {
   c & 0xC0 == 0x80
 }
+
+// BEGIN core-only
+/// Stub for crc32fast's runtime CPU-feature dispatch: always take the portable
+/// table implementation (the PCLMULQDQ one is inline asm, unsupported by CBMC).
+pub fn stub_crc_specialized(_init: u32, _amount: u64) -> Option<crc32fast::Hasher> {
+  None
+}
+// END core-only
